@@ -88,6 +88,12 @@ var addCmd = &cobra.Command{
 				if !isEntryFound {
 					return fmt.Errorf(`path "%s" did not match any files`, arg)
 				}
+			} else if absArg, err := filepath.Abs(arg); err == nil {
+				// a path outside the working tree is refused here, before anything is staged
+				rootPath := filepath.Dir(client.RootGoitPath)
+				if absArg != rootPath && !strings.HasPrefix(absArg, rootPath+string(filepath.Separator)) {
+					return fmt.Errorf("fatal: %s: '%s' is outside repository", arg, arg)
+				}
 			}
 		}
 
